@@ -71,6 +71,8 @@ var deanchored = []string{
 	"(*" + modulePath + "/internal/server.LoadBalancer).beginHealthChecks",
 	"(*" + modulePath + "/internal/server.Service).shouldRedirectToHTTPS",
 	"(*" + modulePath + "/internal/server.Service).redirectToHTTPS",
+	"(*" + modulePath + "/internal/server.ErrorPageMiddleware).getTemplate",
+	"(*" + modulePath + "/internal/server.ErrorPageMiddleware).writeErrorWithoutTemplate",
 }
 
 // inlineSeq numbers expansions across all rounds of one run (labels and temporaries must stay unique when a later round
